@@ -35,13 +35,23 @@ class Sym:
         return v
 
     def dec(self, name):
-        v = VDec(z3.Real(name))
+        v = VDec(z3.Real(name))    # sign bit defaults to value < 0 (inputs are never Decimal('-0'))
         self.inputs[name] = v
         return v
 
-    def float(self, name, pycls=float):
-        v = VFloat(z3.Bool(name + '.nan'), z3.Int(name + '.inf'), z3.Real(name + '.val'),
-                   z3.Bool(name + '.neg'), pycls)
+    def float(self, name, pycls=float, ex=None):
+        """A symbolic double.  With `ex` the value is case-split (both cases explored):
+        magnitude < 2**53 (an arbitrary rational in range: A-FP) or >= 2**53 (an integer,
+        as every double of that magnitude is), which keeps to_int reasoning linear."""
+        if ex is not None and ex.choose(2, 'float-form') == 1:
+            k = z3.Int(name + '.ival')
+            v = VFloat(z3.Bool(name + '.nan'), z3.Int(name + '.inf'), z3.ToReal(k), z3.Bool(name + '.neg'), pycls)
+            v.ival = k
+            v.form = 'big'
+        else:
+            v = VFloat(z3.Bool(name + '.nan'), z3.Int(name + '.inf'), z3.Real(name + '.val'),
+                       z3.Bool(name + '.neg'), pycls)
+            v.form = 'small' if ex is not None else 'any'
         self.inputs[name] = v
         return v
 
@@ -66,12 +76,21 @@ class Sym:
         raise NotImplementedError
 
 
+FLOAT_MAX = z3.RealVal((2 ** 53 - 1) * 2 ** 971)
+
+
 def float_wf(v: VFloat):
     """Well-formedness of the float encoding (the type invariant of the model)."""
     return z3.And(z3.Or(v.inf == -1, v.inf == 0, v.inf == 1),
                   z3.Implies(v.nan, z3.And(v.inf == 0, v.val == 0)),
                   z3.Implies(v.inf != 0, z3.And(v.val == 0, v.neg == (v.inf < 0))),
-                  z3.Implies(z3.And(z3.Not(v.nan), v.inf == 0, v.val != 0), v.neg == (v.val < 0)))
+                  z3.Implies(z3.And(z3.Not(v.nan), v.inf == 0, v.val != 0), v.neg == (v.val < 0)),
+                  v.val <= FLOAT_MAX, v.val >= -FLOAT_MAX,
+                  # a double is its own rounding; doubles of magnitude >= 2**53 are integers
+                  {'big': z3.Or(v.val >= 2 ** 53, v.val <= -(2 ** 53), v.nan, v.inf != 0),
+                   'small': z3.And(v.val < 2 ** 53, v.val > -(2 ** 53)),
+                   'any': z3.BoolVal(True)}[getattr(v, 'form', 'any')],
+                  I.F64(v.val) == v.val)
 
 
 def concretize(v: Val, model: z3.ModelRef):
@@ -127,7 +146,7 @@ def frac_to_decimal(fr):
     while d % 5 == 0:
         d //= 5
     with decimal.localcontext() as ctx:
-        ctx.prec = 200
+        ctx.prec = 5000
         x = decimal.Decimal(fr.numerator) / decimal.Decimal(fr.denominator)
     return x if d == 1 else +x
 
@@ -157,7 +176,7 @@ class Case:
 class Contract:
     def __init__(self, cid, prop, target, setup, post, pre=(), loops=None, inline=(), native=None,
                  samples=None, generator=None, specs=(), expect_min_obligations=1, timeout_s=10,
-                 notes=(), exits=None, frame=None, max_paths=2000, known_regions=None):
+                 notes=(), exits=None, frame=None, max_paths=2000, known_regions=None, splits=()):
         self.id = cid
         self.prop = prop
         self.target = target          # () -> live function
@@ -174,6 +193,7 @@ class Contract:
         self.timeout_s = timeout_s
         self.notes = list(notes)
         self.max_paths = max_paths
+        self.splits = list(splits)   # case-split hints: expressions branched on at entry
 
 
 def outcome_env(outcome):
@@ -237,6 +257,7 @@ def run_contract(contract: Contract, tier='quick', seed=0, known=None):
         env.vars.update(case.names)
         ex.path.names = dict(env.vars)
         ex.globs_stack = [dict(spec_globs)]
+        ex.known_doubles = [z3.simplify(v.val) for v in S.inputs.values() if isinstance(v, VFloat)]
         for v in S.inputs.values():
             if isinstance(v, VFloat):
                 ex.assume(float_wf(v))
@@ -244,6 +265,8 @@ def run_contract(contract: Contract, tier='quick', seed=0, known=None):
                 ex.assume(v.len >= 0)
         for p in contract.pre + case.pre:
             ex.assume(ex.truthy(ex.spec_eval(p, env)))
+        for sp in contract.splits:
+            ex.branch(ex.truthy(ex.spec_eval(sp, env)))
         ex.path.case = case.label
         if contract.generator is not None:
             ex.path.out = VSeq(0, z3.K(z3.IntSort(), z3.Const('out0', contract.generator.sort)),
@@ -336,20 +359,13 @@ def run_contract(contract: Contract, tier='quick', seed=0, known=None):
                     rec.setdefault('cross', []).append(r2)
                 continue
             if r == z3.sat and backend == 'z3':
-                model = s.model()
                 S = sym_holder['S']
-                # inputs of *this* path: rebuild from names recorded on the path
-                inputs = {}
-                for n, v in p.names.items():
-                    if n in S.inputs:
-                        try:
-                            inputs[n] = concretize(v, model)
-                        except Exception as e:
-                            inputs[n] = f'<unconcretizable {e}>'
+                inputs, confirmed, nat, model = confirm_loop(s, S, p, contract, label)
                 rec['result'] = 'refuted'
-                rec['model'] = {k: repr(v) for k, v in inputs.items()}
+                rec['model'] = {k: repr(v)[:200] for k, v in (inputs or {}).items()}
                 res['violations'].append({'obligation': label, 'inputs': inputs, 'case': getattr(p, 'case', ''),
                                           'solver': f'sat ({backend})', 'model_txt': str(model)[:2000],
+                                          'confirmed': confirmed, 'native_outcome': repr(nat)[:300],
                                           'outcome': repr(getattr(p, 'final_outcome', p.outcome))[:300]})
                 break
             if r == z3.sat:
@@ -388,6 +404,73 @@ def run_contract(contract: Contract, tier='quick', seed=0, known=None):
     return res
 
 
+def _shape_constraints(S: Sym, p, attempt: int):
+    """Constraints that steer counter-models toward values representable in Python
+    (doubles are dyadic, Decimals are decimal fractions).  Only used when looking for a
+    replayable witness - never when proving."""
+    cs = []
+    for n, v in p.names.items():
+        if n not in S.inputs:
+            continue
+        if isinstance(v, VFloat):
+            k = z3.Int(f'shape!{n}')
+            if attempt == 1:
+                cs += [v.val * 1024 == z3.ToReal(k), v.val < 2 ** 40, v.val > -(2 ** 40)]
+            elif attempt == 2:
+                cs += [v.val == z3.ToReal(k) * (2 ** 60)]
+            elif attempt == 3:
+                cs += [v.val * (2 ** 60) == z3.ToReal(k), v.val < 1, v.val > -1]
+        elif isinstance(v, VDec):
+            k = z3.Int(f'shape!{n}')
+            if attempt == 1:
+                cs += [v.t * 1000 == z3.ToReal(k)]
+            elif attempt == 2:
+                cs += [v.t == z3.ToReal(k)]
+            elif attempt == 3:
+                cs += [v.t * (10 ** 12) == z3.ToReal(k)]
+    return cs
+
+
+def confirm_loop(s: z3.Solver, S: Sym, p, contract: Contract, label: str, attempts=4):
+    """Replay counter-models on the real code until one violates the postcondition natively."""
+    first = None
+    for attempt in range(attempts):
+        s.push()
+        try:
+            for c in _shape_constraints(S, p, attempt):
+                s.add(c)
+            if s.check() != z3.sat:
+                continue
+            model = s.model()
+        finally:
+            s.pop()
+        inputs = {}
+        ok = True
+        for n, v in p.names.items():
+            if n in S.inputs:
+                try:
+                    inputs[n] = concretize(v, model)
+                except Exception as e:
+                    inputs[n] = f'<unconcretizable {e}>'
+                    ok = False
+        nat = None
+        confirmed = None
+        if ok and contract.native is not None:
+            try:
+                extra = {n: v.conc for n, v in p.names.items()
+                         if n not in S.inputs and isinstance(v, Val) and not isinstance(v, VFunc)
+                         and v.conc is not NOTCONC}
+                holds, nat = native_post(contract, inputs, label, extra)
+                confirmed = (holds is False)
+            except Exception as e:
+                nat = f'replay crashed: {e!r}'
+        if first is None:
+            first = (inputs, confirmed, nat, model)
+        if confirmed:
+            return inputs, True, nat, model
+    return first if first is not None else (None, None, None, None)
+
+
 def cvc5_check(solver: z3.Solver, timeout_ms: int) -> str:
     smt = '(set-logic ALL)\n' + solver.to_smt2()
     try:
@@ -397,6 +480,10 @@ def cvc5_check(solver: z3.Solver, timeout_ms: int) -> str:
         return first if first in ('sat', 'unsat', 'unknown') else 'error'
     except Exception:
         return 'error'
+
+
+class OutsideForm(Exception):
+    pass
 
 
 def to_term_assignment(v: Val, value):
@@ -413,6 +500,13 @@ def to_term_assignment(v: Val, value):
         return [(v.t, z3.RealVal(f'{fr.numerator}/{fr.denominator}'))]
     if isinstance(v, VFloat):
         c = VFloat.from_py(float(value))
+        if getattr(v, 'form', 'any') == 'big':
+            import math
+            fv = float(value)
+            iv = int(fv) if math.isfinite(fv) and fv == int(fv) else 0
+            if math.isfinite(fv) and abs(fv) < 2 ** 53:
+                raise OutsideForm()
+            return [(v.nan, c.nan), (v.inf, c.inf), (v.ival, z3.IntVal(iv)), (v.neg, c.neg)]
         return [(v.nan, c.nan), (v.inf, c.inf), (v.val, c.val), (v.neg, c.neg)]
     if isinstance(v, VStr):
         return [(v.t, z3.StringVal(value))]
@@ -473,20 +567,24 @@ def encoder_validation(contract: Contract, paths, S: Sym, seed: int, n: int):
     for inputs in contract.samples(rng):
         if compared + unmodelled + outside_pre >= n:
             break
-        try:
-            sub = []
-            for name, val in inputs.items():
-                sub += to_term_assignment(S.inputs[name], val)
-        except Exception as e:
-            disagreements.append({'inputs': inputs, 'why': f'cannot bind: {e}'})
-            continue
         hit = None
+        sub = None
+        bind_error = None
         for p in paths:
             if p.outcome[0] == 'cut':
                 continue
+            try:
+                psub = []
+                for name, val in inputs.items():
+                    psub += to_term_assignment(p.names[name], val)
+            except OutsideForm:
+                continue
+            except Exception as e:
+                bind_error = f'cannot bind: {e}'
+                break
             ok = True
             for c in p.pc:
-                r = z3.simplify(z3.substitute(c, *sub))
+                r = z3.simplify(z3.substitute(c, *psub))
                 if z3.is_false(r):
                     ok = False
                     break
@@ -495,9 +593,13 @@ def encoder_validation(contract: Contract, paths, S: Sym, seed: int, n: int):
                     break
             if ok:
                 hit = p
+                sub = psub
                 break
             if ok is None:
                 hit = 'unmodelled'
+        if bind_error:
+            disagreements.append({'inputs': {k: repr(v) for k, v in inputs.items()}, 'why': bind_error})
+            continue
         if hit is None:
             outside_pre += 1      # the sample violates the precondition: nothing to compare
             continue
@@ -538,7 +640,7 @@ def native_code(e):
 
 # ---- native (replay) evaluation of postconditions -----------------------------------
 
-def native_post(contract: Contract, inputs: dict, label: str):
+def native_post(contract: Contract, inputs: dict, label: str, extra: dict | None = None):
     """Run the real code on concrete inputs and evaluate postcondition `label` natively.
     Returns (holds: bool, outcome)."""
     nat = contract.native(inputs)
@@ -548,6 +650,7 @@ def native_post(contract: Contract, inputs: dict, label: str):
         env.update({k: v for k, v in f.__globals__.items() if not k.startswith('__')})
     for f in contract.specs:
         env[f.__name__] = f
+    env.update(extra or {})
     env.update(inputs)
     if nat[0] == 'return':
         env.update(returned=True, result=nat[1], raised_code=None, raised_cls=None, raised_name=None)
